@@ -26,6 +26,72 @@ def line(rest, P, E, rows):
     return ("setmatch %d %d %d %s" % (1 if rest else 0, P, E, rs)).rstrip()
 
 
+ELEM_PATS = [("_", lambda x: True), ("3", lambda x: x == 3), ("> 5", lambda x: x > 5), ("== 1", lambda x: x == 1), ("1..=3", lambda x: 1 <= x <= 3), ("!= 7", lambda x: x != 7)]
+
+
+def macro_cases(rng, _n):
+    """Through the macro: set patterns over small integer collections, elements drawn from a fixed palette
+    (wildcard, literal, comparisons, range), every order of the collection: the verdict must be the existence
+    of a one-to-one assignment (computed here by bipartite matching, independently of the code and the model)."""
+    import t3
+    import tgen
+    cases = []
+    k = 0
+    meanings = "(meanings (v %s (int 3)) (v %s (int 5)) (v %s (int 1)) (v %s (int 7)) (r %s (int 1) (int 3) true))" % (
+        tgen.hexs("3"), tgen.hexs("5"), tgen.hexs("1"), tgen.hexs("7"), tgen.hexs("1..=3"))
+    multisets = [[3, 1], [1, 3], [7, 3, 1], [1, 2, 7], [7, 2, 1], [2, 7, 1], [6, 6], [3], [], [3, 3, 9], [9, 3, 3], [1, 3, 7, 9]]
+    combos = []
+    for n in (1, 2, 3):
+        for c in itertools.product(range(len(ELEM_PATS)), repeat=n):
+            combos.append(list(c))
+    rng.shuffle(combos)
+    for c in combos[:70]:
+        for rest in (False, True):
+            for val in multisets:
+                if not rest and len(val) != len(c) and rng.random() < 0.7:
+                    continue
+                if rest and len(val) < len(c) and rng.random() < 0.7:
+                    continue
+                pat = "#(%s%s)" % (", ".join(ELEM_PATS[i][0] for i in c), (", .." if c else "..") if rest else "")
+                case = t3.Case()
+                case.id = k
+                k += 1
+                case.forms = {"set-macro": 1}
+                case.perturbed = False
+                case.meanings = meanings
+                rows = [[ELEM_PATS[i][1](x) for x in val] for i in c]
+                case.want_pass = spec_pass(rest, len(c), len(val), rows)
+                t3.finish_case(case, "", "Vec<i32>", ("vec![%s]" % ", ".join("%di32" % x for x in val)) if val else "Vec::<i32>::new()",
+                               "(seq %s)" % " ".join("(int %d)" % x for x in val), pat)
+                cases.append(case)
+    return cases
+
+
+def macro_part(ck):
+    import t3
+    ck.build_harness("inproc")
+    cases = t3.run_corpus(ck, "c10-macro", 0, per_bin=60, positions=macro_cases)
+    stats, mism = t3.compare(ck, cases, "c10-macro")
+    bad = 0
+    dist = {"spec-pass": 0, "spec-fail": 0}
+    for c in cases:
+        gk = c.got[0]
+        dist["spec-pass" if c.want_pass else "spec-fail"] += 1
+        if gk not in ("pass", "fail"):
+            ck.report("macro-set-not-run", "a set pattern over integers does not compile / run: " + gk, dict(t3.describe(c)))
+            continue
+        if (gk == "pass") != c.want_pass:
+            bad += 1
+            ck.report("macro-verdict:%s" % ("false-failure" if c.want_pass else "false-success"),
+                      "a set assertion's verdict is not the existence of a one-to-one assignment of patterns to matching elements",
+                      dict(t3.describe(c), assignment_exists=c.want_pass))
+        elif c.expect[0] == "ok" and ((c.expect[1] == []) != c.want_pass):
+            ck.report("model:set-macro", "the Lean specification's verdict differs from the bipartite-matching specification", dict(t3.describe(c), assignment_exists=c.want_pass), no_input=True)
+    ck.corr_record("T3 set patterns through the macro (palette of element patterns incl. `_`, every listed order of small collections, with and without `..`): verdict vs bipartite matching and vs the Lean specification",
+                   len(cases), len(cases), bad, dist, samples=[dict(invocation="assert_struct!(%s)" % c.text, value=c.value_text, got=c.got[0], assignment_exists=c.want_pass) for c in cases[:3]],
+                   rule="70 seeded combinations of 1-3 element patterns from a palette of 6 x {exact, `..`} x 12 collections (orders of the same multiset included); every case distinct")
+
+
 def run(ck):
     ck.prove(["AsModel.Theorems.C10"])
     ck.build_harness("rt")
@@ -91,3 +157,4 @@ def run(ck):
     ck.assumptions += [
         "predicates are modelled as a pure Boolean matrix M k i (the macro's probe closures are deterministic functions of the element; tied at macro level by C01-C03's correspondence)",
     ]
+    macro_part(ck)
